@@ -480,8 +480,14 @@ pub fn menu(tier: Tier) -> Vec<RShard> {
     if tier == Tier::Thorough {
         m.push(mk(vec![bfile, c], vec![x, z]));
     }
+    // LAST entry: a shard of xorbs only that is put into the directory WITHOUT its lookup tables (see TABLELESS_LAST)
+    m.push(mk(vec![], vec![mk_xorb(4, al[4], 2, 0)]));
     m
 }
+/// The last menu shard is written by the real writer and then re-exported with the zero key (hashes unchanged) and
+/// without file section and lookup tables: a legitimate shard whose footer counts (`num_cas_entries()` etc.) are 0
+/// although its xorb section is not empty.
+const TABLELESS_LAST: bool = true;
 
 const MTIME_BASE: i64 = 1_000_000_000;
 
@@ -820,6 +826,19 @@ pub fn run_c10(args: &Args, run: &mut Run) -> (Partial, u64, String) {
         let d = scratch.sub(&format!("menu{i}"));
         let mem = build_mem(m, false);
         let path = mem.write_to_directory(&d).unwrap_or_else(|e| machinery_error(&format!("menu shard {i} does not write: {e:?}")));
+        let path = if TABLELESS_LAST && i + 1 == mn.len() {
+            let sf = mdb_shard::shard_file_handle::MDBShardFile::load_from_file(&path).unwrap_or_else(|e| machinery_error(&format!("menu shard {i} does not load: {e:?}")));
+            let d2 = scratch.sub(&format!("menu{i}t"));
+            let e = sf
+                .export_as_keyed_shard(&d2, merklehash::MerkleHash::default(), std::time::Duration::from_secs(3_000_000_000), false, false, false)
+                .unwrap_or_else(|e| machinery_error(&format!("menu shard {i} does not export without tables: {e:?}")));
+            if e.shard.metadata.cas_lookup_num_entry != 0 || e.shard.metadata.chunk_lookup_num_entry != 0 {
+                machinery_error("the table-less menu shard has lookup tables");
+            }
+            e.path.clone()
+        } else {
+            path
+        };
         let bytes = std::fs::read(&path).expect("menu shard file");
         let name = path.file_name().unwrap().to_string_lossy().to_string();
         if name != shard_file_name_of(&bytes) {
@@ -838,7 +857,7 @@ pub fn run_c10(args: &Args, run: &mut Run) -> (Partial, u64, String) {
     run.set("menu", json!(mn.iter().map(|m| m.describe()).collect::<Vec<_>>()));
     run.set("thresholds", json!(thresholds));
 
-    let depth = std::env::var("LAB_SHARD_DEPTH").ok().and_then(|s| s.parse().ok()).unwrap_or(tier.pick(5usize, 6usize));
+    let depth = std::env::var("LAB_SHARD_DEPTH").ok().and_then(|s| s.parse().ok()).unwrap_or(if args.report_tier == Tier::Quick { 5usize } else { 6usize }); // the quick command runs the thorough family and menu one level less deep
     let root = DState { groups: vec![], hist: vec![] };
     let mut visited: BTreeSet<String> = BTreeSet::new();
     visited.insert(root.key());
@@ -935,6 +954,6 @@ pub fn run_c10(args: &Args, run: &mut Run) -> (Partial, u64, String) {
     run.assume("directory states are materialised in a fresh directory per consolidation (file bytes + explicit mtimes), which is equivalent to replaying the history because consolidation reads only names, bytes and mtimes; files a consolidation creates or rewrites become the newest, in returned order");
     run.assume("thresholds explored: 0, one that merges only the two smallest menu shards, one that merges any two menu shards but not more, 64 MiB, u64::MAX (no limit)");
     let evals = all.get("set_operations") + transitions;
-    let rule = "part 1: every ordered pair (incl. identical) of the shard family (subsets of files A,B[,C] with B sharing A's truncated key x flag patterns incl. mixed ones x xorb subsets, extreme-key shards, collision runs whose unions hold 7 and 8 records per truncated key, the empty shard) through shard_set_union/difference, shard_file_union/difference and MDBInMemoryShard::union/difference, each result scanned and every key of either input plus absent keys looked up; part 2: breadth-first search from the empty directory over {write menu shard at every mtime slot or tied with the newest, consolidate at 5 thresholds incl. u64::MAX}, frontier deduplicated by (file names, mtime order), every consolidation executed by the real code in a fresh directory; a case is distinct non-trivial when the pair of serialized inputs is new and the union is non-empty".to_string();
+    let rule = "part 1: every ordered pair (incl. identical) of the shard family (subsets of files A,B[,C] with B sharing A's truncated key x flag patterns incl. mixed ones x xorb subsets, extreme-key shards, collision runs whose unions hold 7 and 8 records per truncated key, the empty shard) through shard_set_union/difference, shard_file_union/difference and MDBInMemoryShard::union/difference, each result scanned and every key of either input plus absent keys looked up; part 2: breadth-first search from the empty directory over {write menu shard (one of them a xorbs-only shard without lookup tables) at every mtime slot or tied with the newest, consolidate at 5 thresholds incl. u64::MAX}, frontier deduplicated by (file names, mtime order), every consolidation executed by the real code in a fresh directory; a case is distinct non-trivial when the pair of serialized inputs is new and the union is non-empty".to_string();
     (all, evals, rule)
 }
